@@ -26,6 +26,7 @@ CONSTANTS R,         \* elements moved per key-adding call (8; 4 under cfg(test)
           FixD1,     \* shrink_to drops an empty-but-present old table   (TRUE = repaired code)
           FixD4,     \* checked additions in reserve/try_reserve/try_grow (TRUE = repaired code)
           FixD6,     \* clone_from resets an empty destination table first  (TRUE = repaired code)
+          FixD8,     \* extend() halves the size hint without overflowing    (TRUE = repaired code)
           Debug      \* debug_assertions + overflow checks on
 
 VARIABLES mB, mI, mG, oP, oB, oI, cI, err
@@ -187,6 +188,20 @@ Reserve_Post(n, ru) ==
            [] p = "overflow" -> MkNoOld(M1)       \* Err / panic after carry_all happened
            [] OTHER -> MkOld(HB!FreshTbl(GrowB(Len, n)), M1.b, M1.i)
 ReserveCall(n, ru) == Reserve_En(n, ru) /\ Apply(Reserve_Post(n, ru))
+
+(***************************************************************************)
+(* extend(iter): reserve the whole lower size hint h if the map is empty,  *)
+(* else half of it rounded up; then one insert per item (InsertNew /       *)
+(* OverwriteOld steps).  Before the repair the half was (h + 1) / 2.       *)
+(***************************************************************************)
+ExtendRsv(h) == IF Len = 0 THEN h
+                ELSE IF FixD8 THEN (h \div 2) + (h % 2)
+                ELSE Wrap(h + 1) \div 2
+ExtendReserve_En(h, ru) == Ok /\ (IF ~FixD8 /\ Len > 0 /\ h + 1 > MaxUsize /\ Debug THEN ru = 0 ELSE Reserve_En(ExtendRsv(h), ru))
+ExtendReserve_Post(h, ru) ==
+    IF ~FixD8 /\ Len > 0 /\ h + 1 > MaxUsize /\ Debug THEN Fail("overflow_extend_hint")
+    ELSE Reserve_Post(ExtendRsv(h), ru)
+ExtendReserve(h, ru) == ExtendReserve_En(h, ru) /\ Apply(ExtendReserve_Post(h, ru))
 
 (***************************************************************************)
 (* shrink_to(m) / shrink_to_fit() = shrink_to(0)                           *)
